@@ -150,6 +150,34 @@ def _loader_cases(rep, PP):
             rep.add(key, "violation", "bundled-load", f"loader gives {raised or got!r}, expected {want!r}", lines=lines)
         else:
             rep.add(key, "ok")
+    # a second load in the same process (class-level registry): the second file's bodies must be what is recorded afterwards
+    n += 1
+    d = tempfile.mkdtemp(prefix="vf_c19_")
+    try:
+        pa, pb = os.path.join(d, "a.h"), os.path.join(d, "b.h")
+        with open(pa, "w") as f:
+            f.write("insn(A2_x, { RdV = 1; })\ninsn(C9_z, {" + MARK + "{ a; }" + MARK + " b; })\ninsn(Q_only_a, { ; })\n")
+        with open(pb, "w") as f:
+            f.write("insn(A2_x, { RdV = 2; })\ninsn(C9_z, {" + MARK + "{ c; }" + MARK + " d; })\ninsn(A2_x2, { RdV = 3; })\n")
+        saved = M.Conf.get_path
+        M.PreprocessorHexagon.behaviors = dict()
+        try:
+            for path in (pa, pb):
+                M.Conf.get_path = staticmethod(lambda *a, _p=path, **k: _p)
+                M.PreprocessorHexagon(path).load_insn_behavior()
+            got = dict(M.PreprocessorHexagon.behaviors)
+        finally:
+            M.Conf.get_path = staticmethod(saved)
+            M.PreprocessorHexagon.behaviors = dict()
+        want = {"A2_x": ["{ RdV = 2; }"], "C9_z": ["{ c; }", "{ d; }"], "A2_x2": ["{ RdV = 3; }"]}
+        bad = {k: (got.get(k), v) for k, v in want.items() if got.get(k) != v}
+        if bad:
+            rep.add("loader:reload", "violation", "bundled-load", f"after loading a second resolved file in the same process: {bad}")
+        else:
+            rep.add("loader:reload", "ok")
+    finally:
+        import shutil
+        shutil.rmtree(d, ignore_errors=True)
     return n
 
 
